@@ -82,6 +82,8 @@ Cases ==
   \cup [g : {"flt"}, xr : 1..Len(FloatWidths), d : BOOLEAN]
   \cup [g : {"seq"}, r : {"", "ints", "array3", "drop", "ptr"}, er : {"", "drop", "int8", "uint16"}]
   \cup [g : {"strseq"}, r : {"", "strings", "array3", "drop"}, er : {"", "drop"}]
+  \* membership: every sequence representation x every width of the needle
+  \cup [g : {"member"}, r : {"", "ints", "int64s", "int8s", "float64s", "array3", "drop"}, xr : 1..(Len(IntWidths) + 2), xv : {2, 5}]
   \cup [g : {"map"}, r : {"", "mapint", "mapslice", "drop", "ptr"}, er : {"", "drop", "int32", "uint8"}]
   \cup [g : {"bytes"}, r : {"", "bytes", "drop", "ptr"}]
   \cup [g : {"ptr"}, r : {"", "ptr"}, mr : {"", "ptr"}]
@@ -90,12 +92,17 @@ Cases ==
 Bt(b, i) == (b \div (2^(i - 1))) % 2 = 1
 DH(p, b, i) == IF Bt(b, i) THEN (p :> "drop") ELSE <<>>
 
+MemberProg == <<Bit(Cmp("contains", Var(A), Var(X))), Bit(Cmp("contains", Var(A), Lit(IntV(3)))), Bit(Cmp("contains", Var(A), Lit(Flt(1, 1)))), Bar,
+                Ob(Fl(Fl(Var(A), "uniq", <<>>), "size", <<>>)), Bar, [t |-> "case", e |-> Ix(Var(A), Lit(IntV(1))), pre |-> <<>>,
+                   whens |-> <<[vals |-> <<Var(X)>>, body |-> <<T(<<116>>)>>], [else |-> TRUE, vals |-> <<>>, body |-> <<T(<<101>>)>>]>>]>>
 ProgOf(x) ==
-  CASE x.g \in {"num", "numf"} -> NumProg [] x.g = "flt" -> FltProg [] x.g = "seq" -> SeqProg [] x.g = "strseq" -> StrSeqProg
+  CASE x.g = "member" -> MemberProg
+    [] x.g \in {"num", "numf"} -> NumProg [] x.g = "flt" -> FltProg [] x.g = "seq" -> SeqProg [] x.g = "strseq" -> StrSeqProg
     [] x.g = "map" -> MapProg [] x.g = "bytes" -> BytesProg [] x.g = "ptr" -> PtrProg [] x.g = "drop" -> DropProg
 M1(k, v) == MapV(<< <<k, v>> >>)
 EnvOf2(x) ==
-  CASE x.g = "num" -> << <<X, IntV(NumVals[x.xv])>>, <<Y, IntV(2)>>, <<A, Arr(<<IntV(7), IntV(2)>>)>> >>
+  CASE x.g = "member" -> << <<A, Arr(<<IntV(1), IntV(2), IntV(3)>>)>>, <<X, IntV(x.xv)>> >>
+    [] x.g = "num" -> << <<X, IntV(NumVals[x.xv])>>, <<Y, IntV(2)>>, <<A, Arr(<<IntV(7), IntV(2)>>)>> >>
     [] x.g = "numf" -> << <<X, IntV(2)>>, <<Y, Flt(2, 1)>>, <<A, Arr(<<IntV(7), IntV(2)>>)>> >>
     [] x.g = "flt" -> << <<X, Flt(5, 2)>> >>
     [] x.g = "seq" -> << <<A, Arr(<<IntV(3), IntV(1), IntV(2)>>)>>, <<<<98>>, Arr(<<IntV(3), IntV(1), IntV(2)>>)>> >>
@@ -106,7 +113,8 @@ EnvOf2(x) ==
     [] x.g = "drop" -> << <<A, Arr(<<M1(KK, IntV(1)), M1(KK, Str(<<118>>))>>)>>, <<<<102>>, Bool(FALSE)>>, <<<<108>>, Arr(<<Str(<<98>>), Str(<<97>>)>>)>>,
                          <<S0, Str(<<115>>)>>, <<X, IntV(5)>>, <<<<122>>, Nil>> >>
 ReprOf(x) ==
-  CASE x.g = "num" -> H("x", IntWidths[x.xr]) @@ H("y", IntWidths[x.yr])
+  CASE x.g = "member" -> H("a", x.r) @@ H("x", (IntWidths \o FloatWidths)[x.xr])
+    [] x.g = "num" -> H("x", IntWidths[x.xr]) @@ H("y", IntWidths[x.yr])
     [] x.g = "numf" -> H("x", IntWidths[x.xr]) @@ H("y", FloatWidths[x.fr])
     [] x.g = "flt" -> IF x.d THEN ("x" :> "drop") ELSE H("x", FloatWidths[x.xr])
     [] x.g = "seq" -> H("a", x.r) @@ (IF x.r \in {"", "array3", "drop", "ptr"} THEN H("a/1", x.er) ELSE <<>>)
